@@ -427,12 +427,14 @@ def build_response(spec):
 # ---------------------------------------------------------------------------
 # diagnostic layers (real EcuVariant objects, as tests/test_decoding.py builds them)
 # ---------------------------------------------------------------------------
-def build_layer(spec):
+def build_layer(spec, base_variant=False):
     """spec: {"services": [{"name", "request": {...}|None, "pos": [..], "neg": [..]}], "gnr": [..]}"""
     from odxtools.database import Database
     from odxtools.diaglayers.diaglayertype import DiagLayerType
     from odxtools.diaglayers.ecuvariant import EcuVariant
     from odxtools.diaglayers.ecuvariantraw import EcuVariantRaw
+    from odxtools.diaglayers.basevariant import BaseVariant
+    from odxtools.diaglayers.basevariantraw import BaseVariantRaw
     from odxtools.diagservice import DiagService
     b = Builder()
     services, requests, pos, neg, gnrs = [], [], [], [], []
@@ -452,11 +454,16 @@ def build_layer(spec):
                            neg_response_refs=[OdxLinkRef.from_id(r.odx_id) for r in nrs]))
     for i, g in enumerate(spec.get("gnr", [])):
         gnrs.append(b.response(g, name=f"gnr{i}", rtype="GLOBAL-NEG-RESPONSE"))
-    raw = mk(EcuVariantRaw, variant_type=DiagLayerType.ECU_VARIANT, odx_id=oid("layer_id"),
-             short_name="layer", diag_comms_raw=list(services), requests=NamedItemList(requests),
-             positive_responses=NamedItemList(pos), negative_responses=NamedItemList(neg),
-             global_negative_responses=NamedItemList(gnrs))
-    layer = EcuVariant(diag_layer_raw=raw)
+    common = dict(odx_id=oid("layer_id"), short_name="layer", diag_comms_raw=list(services),
+                  requests=NamedItemList(requests), positive_responses=NamedItemList(pos),
+                  negative_responses=NamedItemList(neg),
+                  global_negative_responses=NamedItemList(gnrs))
+    if base_variant:
+        raw = mk(BaseVariantRaw, variant_type=DiagLayerType.BASE_VARIANT, **common)
+        layer = BaseVariant(diag_layer_raw=raw)
+    else:
+        raw = mk(EcuVariantRaw, variant_type=DiagLayerType.ECU_VARIANT, **common)
+        layer = EcuVariant(diag_layer_raw=raw)
     db = OdxLinkDatabase()
     for o in b.objs:
         db.update(o._build_odxlinks())
